@@ -275,8 +275,9 @@ func (v *V) slot(rv reflect.Value, depth int) M {
 		}
 		kvs := make([]kv, len(keys))
 		for i, k := range keys {
-			// keys are scalars in every zoo type: projecting one allocates no node
-			kj, _ := json.Marshal((&V{p: v.p, seen: map[ident]int{}}).slot(k, 0))
+						tv := &V{p: v.p, seen: map[ident]int{}, Nodes: []M{}}
+			ks := tv.slot(k, 0)
+			kj, _ := json.Marshal([]interface{}{ks, tv.Nodes}) // struct keys: their fields order the entries
 			kvs[i] = kv{string(kj), k}
 		}
 		sort.Slice(kvs, func(i, j int) bool { return kvs[i].ks < kvs[j].ks })
